@@ -35,8 +35,7 @@ instance (pid : Nat) (o : Except PyExc α) : Decidable (IsNSP pid o) := by
 def goneExempt : List String :=
   ["pid",          -- no OS access
    "create_time",  -- cached at construction (documented: "The return value is cached after first call")
-   "is_running",   -- answers False
-   "children"]     -- a gone process has no children: []
+   "is_running"]   -- answers False
 
 /-! ### the property's quantifier -/
 
